@@ -1,0 +1,64 @@
+//go:build verif
+
+// Specification vocabulary for the govc verifier (see /verif/DESIGN.md). This file only exists
+// under the `verif` build tag; it adds no behaviour to the package.
+package column
+
+import "math"
+
+type vAssumeFailed struct{}
+
+var vFailures []string
+
+func vAssume(c bool) {
+	if !c {
+		panic(vAssumeFailed{})
+	}
+}
+
+func vAssert(label string, c bool) {
+	if !c {
+		vFailures = append(vFailures, label)
+	}
+}
+
+func vRequires(c bool)              { vAssume(c) }
+func vEnsures(label string, c bool) { vAssert(label, c) }
+func vModifies(ptrs ...any)         {}
+
+func vForall(lo, hi int, f func(i int) bool) bool {
+	for i := lo; i < hi; i++ {
+		if !f(i) {
+			return false
+		}
+	}
+	return true
+}
+
+func vNondet[T any]() (v T) { return }
+
+func vImplies(a, b bool) bool { return !a || b }
+
+// vSame is bit-for-bit equality (for floats: equality of the bit patterns, so NaN == NaN and 0 != -0).
+func vSame[T comparable](a, b T) bool {
+	switch x := any(a).(type) {
+	case float32:
+		return math.Float32bits(x) == math.Float32bits(any(b).(float32))
+	case float64:
+		return math.Float64bits(x) == math.Float64bits(any(b).(float64))
+	}
+	return a == b
+}
+
+// vCallCount is ghost state: how often the (unknown) function value f has been called so far.
+func vCallCount(f any) int { return 0 }
+
+// vJoined runs f; the verifier joins the control-flow paths of f into one state (a hint, no logical content).
+func vJoined(f func()) { f() }
+
+func vInvariant(c bool)          { vAssume(c) }
+func vBody()                     {}
+func vStep(label string, c bool) { vAssert(label, c) }
+
+// vBit reads bit i of a bitmap without bounds tolerance (i must be inside).
+func vBit(fill []uint64, i uint32) bool { return fill[i>>6]&(1<<(i&63)) != 0 }
